@@ -3,7 +3,7 @@
     engine.rs ShardWatchTracker; marks = the mark_modified call sites, after the repair
     a8466ae which added the missing ones). *)
 From Ferrous Require Import Base.Bytes Generated Model.Resp Model.Types Model.Server
-  Proofs.ServerFacts.
+  Model.Strings Proofs.ServerFacts Proofs.MarksFacts.
 Open Scope Z_scope.
 
 (** Counter soundness: from a WATCH on (active watcher in the key's shard) any later
@@ -47,6 +47,19 @@ Theorem c08_exec_runs :
     match exec_queue now (set_conn s c (clear_tx cn)) (c_db cn) (c_queue cn) [] with
     | (reps, s2) => (FArray reps, s2) end.
 Proof. exact exec_runs. Qed.
+
+(** Every command of the string/key family marks every key whose entry (value, deadline,
+    existence) it changes: a key that is not marked has exactly the entry it had - for all
+    databases, times and arguments, refused commands included.  Together with c08_sound
+    (a mark lifts the counter above the baseline) this is "any change to a watched key
+    aborts EXEC" for this family; the other families' mark lists are tied by the catalogue
+    correspondence and the census obligations below. *)
+Theorem c08_unmarked_unchanged :
+  forall now d name parts r d' k,
+  exec_strings now d name parts = Some (r, d') ->
+  bmem k (marks_strings d d' name parts r) = false ->
+  get_entry d' k = get_entry d k.
+Proof. exact marks_complete_strings. Qed.
 
 (** Every code path that can change a key's value or deadline bumps the counter:
     obligations over the census of engine.rs regenerated on every run - each mutating
